@@ -26,6 +26,10 @@ CHECKS = {
   text='Coq theorem C07_alias over the _normalize_path regenerated from exefs.py: every stored name (not starting with "/" and not ending in ".bin") is reached by N, /N, N.bin and /N.bin, for all names, with str.lower uninterpreted; slot codec round trip and both rejects proved on the header model; extracted header parser run against ExeFSReader on valid and malformed headers; entries, aliases, missing names and entry bytes checked against an independent builder.',
   note='Trusted: Coq kernel, translator, extraction + driver, hand model Exefs.v (tie 2), independent builder. Partial: the header theorem is per 16-byte slot; entry bytes rely on C09 windows and are sampled here.',
   technique='Rocq/Coq proof over regenerated kernel + slot codec round trip + correspondence'),
+ 'C20': dict(
+  text='Coq theorems about kernels regenerated from source: TitleVersion and ContentTypeFlags word round trips (all 65 536 words, all in-range triples), SMDH flag and region-lockout bit tables for every 32-bit word (bit reasoning), RGB565->RGB888 for all 65 536 colours, the pixel_offset expression equals Morton 8x8 tiling and is injective for both icon sizes (complete sweeps, bound in the statement), DIFI serialise-then-parse round trip for all field values. The remaining types of the property (AppTitle, whole SMDH images, config save, seed DB, NCSD header, IVFC/DPFS descriptors, LZSS with a reference backward compressor) are decided by direct round-trip oracles on generated values plus exhaustive pixel/colour/word sweeps on the implementation.',
+  note='Partial: only the listed kernels have theorems; the other codecs are sampled (oracle). Trusted: Coq kernel (vm_compute for finite sweeps), translator, reference LZSS compressor.',
+  technique='Rocq/Coq proofs over regenerated kernels (finite sweeps lifted by forallb_forall, bit lemmas, field-extraction lemmas) + round-trip oracles'),
 }
 
 NOT_YET = 'check not built yet in this session (work in progress; see DESIGN.md section 10 order of work)'
